@@ -53,8 +53,13 @@ var zodiacFest = ev.Register(&ev.P[dayCase]{
 	Rule: "every civil day of the sweep years (every year 1..9998 in thorough) and generated days; oracle: the sign is the one whose conventional first day (3-21, 4-20, 5-21, 6-22, 7-23, 8-23, 9-23, 10-24, 11-23, 12-22, 1-20, 2-19) is the latest on or before the month-day — so exactly one sign per day, twelve contiguous runs in order, independent of the year; deprecated alias equal; festivals re-derived from the exported maps' keys: 'm-d' fixed dates, 'm-k-w' reported <=> the day is the k-th occurrence of weekday w among the existing days of month m, 'm-0-w' <=> no later day of the month has weekday w; the reported list equals the derived list exactly (nothing else, nothing twice); other-festival list equals the map entry; non-trivial: first/last day of a sign, Feb 29, a day that is the 7k-th or (7k-6)-th of its month, the last 7 days of a month, or 1582-10",
 	Check: func(c dayCase) error {
 		y, m, d := ref.FromJDN(c.J)
-		s := calendar.NewSolarFromYmd(y, m, d)
-		day := s.ToYmd()
+		// sign and festivals are facts of the civil day: the clock time rotates with the day number
+		hh, mi, sec := (c.J*5)%24, (c.J*7)%60, (c.J*11)%60
+		if c.J%4 == 0 {
+			hh, mi, sec = 0, 0, 0
+		}
+		s := calendar.NewSolar(y, m, d, hh, mi, sec)
+		day := s.ToYmdHms()
 		want := SolarUtil.XINGZUO[signOf(m, d)]
 		if s.GetXingZuo() != want || s.GetXingzuo() != want {
 			return fmt.Errorf("%s: GetXingZuo=%s GetXingzuo=%s, the sign starting on or before %d-%d is %s", day, s.GetXingZuo(), s.GetXingzuo(), m, d, want)
@@ -145,7 +150,7 @@ var oncePerYear = ev.Register(&ev.P[yearCase]{
 		var runs []string
 		for j := ref.JDN(c.Y, 1, 1); j <= ref.JDN(c.Y, 12, 31); j++ {
 			y, m, d := ref.FromJDN(j)
-			s := calendar.NewSolarFromYmd(y, m, d)
+			s := calendar.NewSolar(y, m, d, (j*5)%24, (j*3)%60, 0)
 			for _, f := range strs(s.GetFestivals()) {
 				cnt[f]++
 			}
